@@ -264,4 +264,36 @@ Section CbcCs3Enc.
       do 2 f_equal. unfold splice. rewrite <- Hup at 1. rewrite firstn_app_exact by reflexivity.
       rewrite skipn_all2 by (rewrite app_length, firstn_length; lia). rewrite app_nil_r. reflexivity.
   Qed.
+
+  (* ---- C05 over the translated source: the bytes this closure body leaves in the buffer are the NIST SP 800-38A
+     Addendum ciphertext of the message, buffer-to-buffer (any prior contents of the output buffer) and in place --
+     the tie theorem above composed with Cts_cs_proofs.cbc_cs3_enc_ok (= Props/C05). *)
+  Theorem C05_cbc_cs3_enc_source_b2b iv (blocks : list (list N)) (tail : list N) (ob : list (list N)) (ot : list N) :
+    cipher_wf C -> length iv = bs -> all_len bs blocks -> 1 <= length blocks -> length tail < bs ->
+    all_len bs ob -> length ob = length blocks -> length ot = length tail ->
+    exists e', run_body X (cenv true iv false (concat blocks ++ tail) (concat ob ++ ot)) cts__cbc_cs3__BlockCipherEncClosure__Closure__call = Some (e', VUnit)
+      /\ lookup "buf" e' = Some (VBuf false (concat blocks ++ tail) (cbc_cs3_spec bs (c_E C) iv blocks tail)).
+  Proof.
+    intros Cwf Hiv Hb Hn Ht Hob Hobl Hotl.
+    destruct (tie_cts__cbc_cs3__BlockCipherEncClosure__Closure__call iv false blocks tail ob ot) as (e' & o' & Hrun & Hbuf & Hmod); auto; try lia.
+    assert (Hm : msg_mem C (mkmem false (concat blocks ++ tail) (concat ob ++ ot)) blocks tail).
+    { constructor; auto. split; [|discriminate]. cbn [m_in m_out]. rewrite !app_length, !(all_len_concat_length bs) by auto. lia. }
+    destruct (cbc_cs3_enc_ok C Cwf iv _ blocks tail Hiv Hm) as (m' & E1 & E2).
+    fold bs in E2. rewrite Hmod in E1. injection E1 as <-. cbn [m_out] in E2. subst o'.
+    exists e'. split; [exact Hrun | exact Hbuf].
+  Qed.
+
+  Theorem C05_cbc_cs3_enc_source_inplace iv (blocks : list (list N)) (tail : list N) :
+    cipher_wf C -> length iv = bs -> all_len bs blocks -> 1 <= length blocks -> length tail < bs ->
+    exists e', run_body X (cenv true iv true (concat blocks ++ tail) (concat blocks ++ tail)) cts__cbc_cs3__BlockCipherEncClosure__Closure__call = Some (e', VUnit)
+      /\ lookup "buf" e' = Some (VBuf true (concat blocks ++ tail) (cbc_cs3_spec bs (c_E C) iv blocks tail)).
+  Proof.
+    intros Cwf Hiv Hb Hn Ht.
+    destruct (tie_cts__cbc_cs3__BlockCipherEncClosure__Closure__call iv true blocks tail blocks tail) as (e' & o' & Hrun & Hbuf & Hmod); auto; try lia.
+    assert (Hm : msg_mem C (mkmem true (concat blocks ++ tail) (concat blocks ++ tail)) blocks tail).
+    { constructor; auto. split; auto. }
+    destruct (cbc_cs3_enc_ok C Cwf iv _ blocks tail Hiv Hm) as (m' & E1 & E2).
+    fold bs in E2. rewrite Hmod in E1. injection E1 as <-. cbn [m_out] in E2. subst o'.
+    exists e'. split; [exact Hrun | exact Hbuf].
+  Qed.
 End CbcCs3Enc.
